@@ -833,7 +833,10 @@ func (e *lexEngine) store(fn *ssa.Function, cfg *lexCfg, x *ssa.Store) {
 				}
 			case avCur:
 				// restore a saved position
-				if cfg.st.pos != v.snap.pos && cfg.st.ts == tsR {
+				// after a read, width belongs to the rune just read; moving the cursor back without
+				// restoring width leaves it stale. At the saturated position (2 = "two or more")
+				// equal abstract positions do not imply equal cursors, so the move is assumed.
+				if (cfg.st.pos != v.snap.pos || cfg.st.pos == 2) && cfg.st.ts == tsR {
 					cfg.st.ts = tsC
 				}
 				cfg.st.pos = v.snap.pos
